@@ -102,6 +102,18 @@ Theorem C12_kv_newest_kept_partial : forall dl mx d f p x y,
 Proof. exact C12_kv_newest_partial. Qed.
 Print Assumptions C12_kv_newest_kept_partial.
 
+(* several filters in one REQ: each is planned and served on its own, under its own limit; the subscriber receives the
+   concatenation of what it would receive for each of the first maximum_plans filters sent alone *)
+Theorem C12_kv_several_filters_concat : forall dl mx d fs,
+  answer_kv dl mx d fs = flat_map (fun f => answer_kv dl mx d [f]) (firstn maximum_plans fs).
+Proof. exact C12_kv_req_is_concat. Qed.
+Print Assumptions C12_kv_several_filters_concat.
+
+Theorem C12_kv_filters_do_not_interfere : forall dl mx d fs f e,
+  In f (firstn maximum_plans fs) -> In e (answer_kv dl mx d [f]) -> In e (answer_kv dl mx d fs).
+Proof. exact C12_kv_req_filter_independent. Qed.
+Print Assumptions C12_kv_filters_do_not_interfere.
+
 (* ===== refutations at store level (open findings F16 multi-value and F07) ===== *)
 Theorem C12_kv_refuted : exists d f p x y,
   Coherent d /\ wf_filter f /\ plan_one None (Some 5) f = Some p /\ multi_match_filter f = true /\
